@@ -1,10 +1,19 @@
 /*
- * models/bn_memset.c -- memset per C11 7.24.6.1 for the Diffie-Hellman groups, as a loop with the constant bound
- * 256 (the only call is memset(r, 0, 256 - rlen) in blinded_modexp; CBMC's built-in memset handles a symbolic
- * length through symbolic-size array operations, which cost millions of SAT variables here).  A length above
- * 256 is a MODEL-BOUND failure (group undecided), never silently truncated.
+ * models/bn_memset.c -- memset per C11 7.24.6.1 for the Diffie-Hellman groups (the only call is
+ * memset(r, 0, 256 - rlen) in blinded_modexp).  CBMC's built-in memset handles a symbolic length through
+ * symbolic-size array operations, and 256 guarded single-byte stores are each frame-checked by DFCC; both cost
+ * millions of SAT variables here.  So (default): the 256 bytes starting at s must be inside the object (MODEL-BOUND
+ * assertion); they are loaded, the first n bytes of the copy are set, and the window is stored back in one
+ * assignment (bytes n .. 255 are rewritten with their own values).  -DBN_MEMSET_GENERAL: n guarded stores.
+ * The memory afterwards is the same either way.
+ * A length above 256 is a MODEL-BOUND failure (group undecided), never silently truncated.
  */
 #include <stddef.h>
+#include <stdint.h>
+
+struct bn_memset_win256 {
+	unsigned char b[256];
+};
 
 void *
 memset(void * s, int c, size_t n)
@@ -14,8 +23,23 @@ memset(void * s, int c, size_t n)
 
 	__CPROVER_assert(n <= 256, "MODEL-BOUND bn_memset: length above 256");
 	__CPROVER_assume(n <= 256);
+#ifndef BN_MEMSET_GENERAL
+	__CPROVER_assert(__CPROVER_POINTER_OFFSET(s) + 256 <= __CPROVER_OBJECT_SIZE(s), "MODEL-BOUND bn_memset: 256 bytes available at the destination");
+	__CPROVER_assume(__CPROVER_POINTER_OFFSET(s) + 256 <= __CPROVER_OBJECT_SIZE(s));
+	{
+		struct bn_memset_win256 * win = s;
+		struct bn_memset_win256 w = *win;
+
+		for (i = 0; i < 256; i++)
+			if (i < n)
+				w.b[i] = (unsigned char)(c & 0xff);
+		*win = w;
+	}
+	(void)p;
+#else
 	for (i = 0; i < 256; i++)
 		if (i < n)
 			p[i] = (unsigned char)(c & 0xff);
+#endif
 	return (s);
 }
